@@ -5,8 +5,9 @@ Only property theorems live here (helper lemmas: `Lemmas/Extend.lean`).
 Proved: the right triangle and the right diagonal, first on a cumulative (`Cell` / `CumulativeCell`) input
 (`*_partial`), then for both bases through the incremental path (`to_cumulative`, `to_incremental`,
 `_fix_prev_evaluation_date`: `rightTri_incremental_chain`, `rightTri_lags_exact`, ...); `fill_forward_gaps`;
-`backfill`; and the bridges `extensionSpec_model_*`: the executable Spec predicates of `Spec/C15.lean` evaluate to
-true on the model's output for all four operators. No statement is left open.
+`backfill`; the bridges `extensionSpec_model_*`: the executable Spec predicates of `Spec/C15.lean` evaluate to
+true on the model's output for all four operators; `include_historic = True` (what holds, and the re-created
+coordinates); success of the operators (totality on cumulative input, closed instances). No statement is left open.
 -/
 import Bermuda.Lemmas.Extend
 import Bermuda.Lemmas.ExtendFill
@@ -20,6 +21,9 @@ import Bermuda.Lemmas.ExtendSpecDiag
 import Bermuda.Lemmas.ExtendNodup
 import Bermuda.Lemmas.ExtendSpecFillClauses
 import Bermuda.Lemmas.ExtendSpecBackfillClauses
+import Bermuda.Lemmas.ExtendSpecDiagHist
+import Bermuda.Lemmas.ExtendTotal
+import Bermuda.Lemmas.ExtendExamples
 import Bermuda.Spec.C15
 namespace Bermuda.Properties.C15
 open Bermuda Bermuda.Extend
@@ -827,9 +831,8 @@ def exFirst : Cell :=
 example : replacementValues exFirst ["earned_premium"]
     = .ok [("paid_loss", .int 0), ("earned_premium", .int 100)] := by decide +kernel
 
--- (`makeRightTriangleU exCells none (some .month)` evaluates to the three cells 2020-Q1@2020-09-30 … in
--- `#eval`; the kernel cannot reduce `mergeSort`/`Rat` terms of that size, so the instance is exercised by
--- the correspondence harness instead.)
+-- (success of the operators on these inputs: `exCells_rightTri_ok`, `exCells_rightDiag_ok`, `exFill_fill_ok`,
+-- `exBack_backfill_ok` at the end of this file)
 
 
 /-! ### the executable Spec on the model's output: `fill_forward_gaps`, `backfill` -/
@@ -909,15 +912,6 @@ theorem exCells_domain : SpecDomain exCells := by
   refine ⟨⟨by decide +kernel, by decide +kernel, by decide +kernel⟩, by decide +kernel, exCells_aligned,
     by decide +kernel⟩
 
-def exB1 : Cell :=
-  { kind := .cumulative, ps := ⟨2020, 1, 1⟩, pe := ⟨2020, 1, 31⟩, ev := ⟨2020, 3, 31⟩,
-    values := [("paid_loss", .int 5), ("earned_premium", .int 100)] }
-def exB2 : Cell :=
-  { kind := .cumulative, ps := ⟨2020, 1, 1⟩, pe := ⟨2020, 1, 31⟩, ev := ⟨2020, 4, 30⟩,
-    values := [("paid_loss", .int 7), ("earned_premium", .int 100)] }
-/-- one row observed at the lags 2 and 3 -/
-def exBack : List Cell := [exB1, exB2]
-
 theorem exBack_domain : SpecDomain exBack := by
   refine ⟨⟨by decide +kernel, by decide +kernel, by decide +kernel⟩, by decide +kernel, ?_, by decide +kernel⟩
   intro c hc
@@ -925,11 +919,8 @@ theorem exBack_domain : SpecDomain exBack := by
   rcases hc with rfl | rfl <;> (unfold MonthAligned; decide)
 
 /-- `BackfillOk` is satisfiable and not vacuous: the row of `exBack` starts at lag 2, so with resolution 1 and bound
-0 the loop creates the lags 1 and 0 — two steps, both valid cells in 2020. (`#eval backfill exBack
-["earned_premium"] (some 1) 0` returns the four cells 2020-01-31 … 2020-04-30 and all six clauses of `backfillSpec`
-evaluate to true; `#eval fillForwardGaps exCells (some 1) false` adds the lags 1 and 2 of the first row and all seven
-clauses of `fillSpec` evaluate to true — the kernel cannot reduce `mergeSort`, so these runs are left to the
-correspondence harness.) -/
+0 the loop creates the lags 1 and 0 — two steps, both valid cells in 2020 (`exBack_backfill_ok`: the model returns and
+the whole Spec holds). -/
 theorem exBack_ok : BackfillOk exBack 1 0 := by
   intro first hf hearly i hi
   simp only [exBack, List.mem_cons, List.not_mem_nil, or_false] at hf
@@ -941,5 +932,161 @@ theorem exBack_ok : BackfillOk exBack 1 0 := by
   · exfalso
     apply hearly exB1 (by simp [exBack]) rfl
     decide +kernel
+
+/-! ### `make_right_diagonal(include_historic=True)`: what holds, and the re-created coordinates -/
+
+/-- **rightDiag_historic_recreates**: with `include_historic = True` (either basis) a requested date that is the
+evaluation date of an observed cell `x` (not before its period start) is served like any other: the result contains a
+cell ON THE OCCUPIED COORDINATE of `x`, so the clause `disjoint` ("never create a cell at an occupied coordinate") is
+FALSE of the model's — and the library's — output for this flag. (The default `include_historic = False` satisfies it:
+`rightDiag_spec`, `extensionSpec_model_rightDiag`.) -/
+theorem rightDiag_historic_recreates {t out : List Cell} {dates : List Date}
+    (h : makeRightDiagonal t dates true = .ok out) {x : Cell} (hx : x ∈ t) (hd : x.ev ∈ dates)
+    (hps : x.ps ≤ x.ev) :
+    (∃ c ∈ out, Spec.C15.sameCoord c x = true) ∧ Spec.C15.disjoint t out = false := by
+  obtain ⟨cum, new, hf⟩ := rightDiag_facts h
+  obtain ⟨c, hc, hs⟩ := rightDiag_hist_occupied hf hx hd hps
+  refine ⟨⟨c, hc, hs⟩, ?_⟩
+  simp only [Spec.C15.disjoint, List.all_eq_false, Bool.not_eq_true, Bool.not_eq_false', List.any_eq_true]
+  exact ⟨c, hc, x, hx, hs⟩
+
+/-- **extensionSpec_model_rightDiag_historic**: the exact clause set that DOES hold with `include_historic = True`
+(`rightDiagHistSpec`, both bases, any triangle and date list): every cell sits at a requested date not before its
+period start on an observed row (`onGrid`), every such (row, date) is supplied (`complete`), no coordinate twice for
+distinct dates (`nodup`), empty values, same basis, incremental chain, canonical form. Not claimed (and false in
+general): `disjoint`, `afterLatest`, `emptyWhenComplete`. -/
+theorem extensionSpec_model_rightDiag_historic {t out : List Cell} {dates : List Date}
+    (h : makeRightDiagonal t dates true = .ok out) :
+    Spec.C15.allHold (Spec.C15.rightDiagHistSpec t dates out) = true := by
+  obtain ⟨cum, new, hf⟩ := rightDiag_facts h
+  have h1 := spec_rightDiagHist_onGrid hf
+  have h2 := spec_rightDiagHist_complete hf
+  have h3 := spec_valuesEmpty (spec_values_of_facts hf.empties hf.cumPerm hf.chain)
+  have h4 := spec_basis hf.empties hf.cumPerm hf.chain
+  have h5 := spec_chain hf.chain hf.fwd hf.bwd
+  have h6 := finishRight_canonical (fun n hn => (hf.empties n hn).1) hf.newOk hf.fin
+  have hnodup : (!(Spec.C15.nodupList dates) || Spec.C15.nodupCoords out) = true := by
+    cases hd : Spec.C15.nodupList dates with
+    | false => simp
+    | true =>
+      have hk := rightDiag_new_keys_nodup (nodupList_nodup dates hd) hf.newEq
+      have := nodupCoords_of_keys out
+        (finishRight_keys_nodup (fun n hn => (hf.empties n hn).1) hk hf.fin)
+      simp [this]
+  simp only [Spec.C15.allHold, Spec.C15.rightDiagHistSpec, List.all_cons, List.all_nil,
+    h1, h2, h3, h4, h5, h6, hnodup, Bool.and_self]
+
+/-- **backfill_only_first_slice** (D17 pinned): every cell `backfill` adds lies on the LOWEST-metadata slice of its
+period — the loop runs over `period_rows`, whose first cell belongs to the first slice; later slices of a period get
+no cell. -/
+theorem backfill_only_first_slice {t out : List Cell} {statics : List String} {res? : Option Int}
+    {minLag : Int} (h : backfill t statics res? minLag = .ok out) :
+    ∃ added, out.Perm (t ++ added) ∧
+      ∀ a ∈ added, ∀ o ∈ t, o.ps = a.ps → o.pe = a.pe → Metadata.cmp a.md o.md ≠ .gt := by
+  obtain ⟨added, _, _, hperm, hall⟩ := backfill_added_before_first h
+  refine ⟨added, hperm, ?_⟩
+  intro a ha o ho hps hpe
+  obtain ⟨row, hrow, first, hf, _, _, _, _, _, _, _, rfl⟩ := hall a ha
+  obtain ⟨first', hP⟩ := prow_facts hrow
+  have : first' = first := by have := hP.head; rw [hf] at this; cases this; rfl
+  subst this
+  apply hP.lowest o ho
+  rw [← hP.period]
+  show (o.ps, o.pe) = (first'.ps, first'.pe)
+  rw [hps, hpe]; rfl
+
+/-! ### the operators SUCCEED: totality on cumulative input, closed instances with every bridge hypothesis -/
+
+/-- **rightDiag_total**: `make_right_diagonal` (either flag) returns on a class-consistent cumulative triangle as
+soon as no `CumulativeCell(...)` call raises -/
+theorem rightDiag_total {t : List Cell} {dates : List Date} {hist : Bool}
+    (hk : kindsConsistent t = true) (hinc : Triangle.isIncremental t = false)
+    (hdates : ∀ e ∈ t, ∀ d ∈ dates, e.ps ≤ d → (emptyCell e d).datesOk = true) :
+    ∃ out, makeRightDiagonal t dates hist = .ok out := makeRightDiagonal_ok hk hinc hdates
+
+/-- **rightTri_total**: `make_right_triangle` (month or day unit) returns on a class-consistent cumulative triangle as
+soon as no `CumulativeCell(...)` call raises -/
+theorem rightTri_total {t : List Cell} {lags : Option (List Rat)} {u : LagUnit} (hu : u ≠ .timedelta)
+    (hk : kindsConsistent t = true) (hinc : Triangle.isIncremental t = false)
+    (hcells : ∀ e ∈ t, ∀ l,
+      ((∃ ls, lags = some ls ∧ l ∈ ls) ∨ (lags = none ∧ ∃ o ∈ t, o.md = e.md ∧ o.devLag u = l)) →
+      l > e.devLag u → ∀ ev, addDevLag e.pe l u = .ok ev → (emptyCell e ev).datesOk = true) :
+    ∃ out, makeRightTriangleU t lags (some u) = .ok out := makeRightTriangle_ok hu hk hinc hcells
+
+/-- **backfill_total'**: `backfill` returns on a class-consistent non-empty triangle for a positive resolution when
+the static fields are present in every cell -/
+theorem backfill_total' {t : List Cell} {statics : List String} {res? : Option Int} {minLag pres res : Int}
+    (hk : kindsConsistent t = true) (hpr : periodResolution t = some pres)
+    (hres : resolvedRes t res? = some res) (hpos : 0 < res)
+    (hstat : ∀ c ∈ t, ∀ f ∈ statics, (c.values.get? f).isSome = true) :
+    ∃ out, backfill t statics res? minLag = .ok out := backfill_total hk hpr hres hpos hstat
+
+/-- closed instance: the right triangle of `exCells` exists and satisfies the whole Spec -/
+theorem exCells_rightTri_ok :
+    ∃ out, makeRightTriangleU exCells none (some .month) = .ok out ∧
+      Spec.C15.allHold (Spec.C15.rightTriSpec exCells none .month out) = true := by
+  obtain ⟨out, h⟩ : ∃ out, makeRightTriangleU exCells none (some .month) = .ok out := by
+    apply makeRightTriangle_ok (by decide) (by decide +kernel) rfl
+    intro e he l hl hgt ev hev
+    rcases hl with ⟨ls, hls, _⟩ | ⟨_, o, ho, _, rfl⟩
+    · cases hls
+    · cases hev
+      simp only [exCells, List.mem_cons, List.not_mem_nil, or_false] at he ho
+      rcases he with rfl | rfl | rfl <;> rcases ho with rfl | rfl | rfl <;> revert hgt <;> decide +kernel
+  exact ⟨out, h, extensionSpec_model_rightTri h exCells_aligned (fun l hl => by cases hl)⟩
+
+/-- closed instance: the right diagonal of `exCells` at two later dates exists and satisfies the whole Spec -/
+theorem exCells_rightDiag_ok :
+    ∃ out, makeRightDiagonal exCells [⟨2020, 9, 30⟩, ⟨2020, 12, 31⟩] false = .ok out ∧
+      Spec.C15.allHold (Spec.C15.rightDiagSpec exCells [⟨2020, 9, 30⟩, ⟨2020, 12, 31⟩] out) = true := by
+  obtain ⟨out, h⟩ := makeRightDiagonal_ok (t := exCells) (dates := [⟨2020, 9, 30⟩, ⟨2020, 12, 31⟩])
+    (hist := false) (by decide +kernel) rfl (by decide +kernel)
+  exact ⟨out, h, extensionSpec_model_rightDiag h⟩
+
+/-- closed witness of `rightDiag_historic_recreates`: on `exCells` with the observed date 2020-03-31 requested and
+`include_historic = True` the model returns, and `disjoint` is false of its output -/
+theorem rightDiag_historic_witness :
+    ∃ out, makeRightDiagonal exCells [⟨2020, 3, 31⟩, ⟨2020, 9, 30⟩] true = .ok out ∧
+      Spec.C15.disjoint exCells out = false := by
+  obtain ⟨out, h⟩ := makeRightDiagonal_ok (t := exCells) (dates := [⟨2020, 3, 31⟩, ⟨2020, 9, 30⟩])
+    (hist := true) (by decide +kernel) rfl (by decide +kernel)
+  exact ⟨out, h, (rightDiag_historic_recreates h (x := exCells[0]) (by decide +kernel) (by decide +kernel)
+    (by decide +kernel)).2⟩
+
+/-- closed instance: `backfill` of `exBack` (lags 2, 3 → lags 1, 0 added) exists and satisfies the whole Spec;
+`List.mergeSort` does not reduce in the kernel, so `periodResolution` is evaluated in stages -/
+theorem exBack_backfill_ok :
+    ∃ out, backfill exBack ["earned_premium"] (some 1) 0 = .ok out ∧
+      Spec.C15.allHold (Spec.C15.backfillSpec exBack ["earned_premium"] (some 1) 0 out) = true := by
+  obtain ⟨out, h⟩ := backfill_total (t := exBack) (statics := ["earned_premium"]) (res? := some 1) (minLag := 0)
+    (by decide +kernel) exBack_pres rfl (by decide) (by decide +kernel)
+  refine ⟨out, h, extensionSpec_model_backfill h exBack_domain ?_ ?_⟩
+  · intro res hres; cases hres; decide
+  · intro res pres hres hpres
+    cases hres
+    rw [exBack_pres] at hpres; cases hpres
+    exact exBack_ok
+
+theorem exFill_domain : SpecDomain exFill := by
+  refine ⟨⟨by decide +kernel, by decide +kernel, by decide +kernel⟩, by decide +kernel, ?_, by decide +kernel⟩
+  intro c hc
+  simp only [exFill, List.mem_cons, List.not_mem_nil, or_false] at hc
+  rcases hc with rfl | rfl <;> (unfold MonthAligned; decide)
+
+/-- closed instance: `fill_forward_gaps` on a row observed at the lags 0 and 2 with resolution 1 exists, has three
+cells (the lag 1 is filled) and satisfies the whole Spec -/
+theorem exFill_fill_ok :
+    ∃ out, fillForwardGaps exFill (some 1) false = .ok out ∧ out.length = 3 ∧
+      Spec.C15.allHold (Spec.C15.fillSpec exFill (some 1) false out) = true := by
+  obtain ⟨out, hout⟩ := ofCells_ok (l := [exF1, exF2, { exF1 with ev := ⟨2020, 2, 29⟩ }]) (by decide +kernel)
+  have h : fillForwardGaps exFill (some 1) false = .ok out := by
+    unfold fillForwardGaps
+    rw [exFill_rows]
+    simp only [List.isEmpty_cons, Bool.false_eq_true, if_false, List.mapM_cons, List.mapM_nil, exFill_row,
+      bind, Except.bind, pure, Except.pure, List.flatten_cons, List.flatten_nil, List.append_nil]
+    exact hout
+  refine ⟨out, h, ?_, extensionSpec_model_fill h exFill_domain (fun res hres => by cases hres; decide)⟩
+  have := (Properties.C01.ofCells_perm hout).length_eq
+  simpa using this
 
 end Bermuda.Properties.C15
